@@ -536,3 +536,40 @@ func DecideThenEquivocate(cl *qsim.Cluster, track func()) string {
 	}, track)
 	return fmt.Sprintf("decide-then-equivocate(r%d, %s)", rB, variant)
 }
+
+// ReproposePrepared is a directed prefix for executions with an operator X whose own value check refuses a value the others
+// accept (Config.Picky): the round-1 leader's value is made the refused one, everybody else accepts and prepares it, the commits
+// are lost, everybody times out, and the round-2 leader re-proposes the prepared value with its justification. X must refuse
+// that proposal like the first one; the others decide. No Byzantine operator takes part in the script.
+func ReproposePrepared(cl *qsim.Cluster, track func()) string {
+	n, h := cl.Cfg.N, cl.Cfg.Height
+	var x *qsim.Node
+	for _, nd := range cl.Honest() {
+		if nd.Refuses != nil {
+			x = nd
+		}
+	}
+	l1 := cl.Nodes[qsim.Leader(n, h, 1)-1]
+	l2 := cl.Nodes[qsim.Leader(n, h, 2)-1]
+	if x == nil || l1.Byz || l2.Byz || l1 == x {
+		return ""
+	}
+	x.Refuses = l1.Start
+	typeIs := func(t specqbft.MessageType) func(f *qsim.Flight) bool {
+		return func(f *qsim.Flight) bool { return f.Msg.Message.MsgType == t && len(f.Msg.Signers) == 1 && !f.Byz }
+	}
+	cl.DeliverWhere(typeIs(specqbft.ProposalMsgType), track)
+	cl.DeliverWhere(typeIs(specqbft.PrepareMsgType), track)
+	cl.DropWhere(func(f *qsim.Flight) bool { return f.Msg.Message.MsgType == specqbft.CommitMsgType })
+	for _, nd := range cl.Honest() {
+		if st := nd.Inst(); st != nil && !st.Decided && st.Round == 1 {
+			_ = cl.FireTimeoutFor(nd, h, 1)
+			track()
+		}
+	}
+	cl.DeliverWhere(typeIs(specqbft.RoundChangeMsgType), track)
+	cl.DeliverWhere(typeIs(specqbft.ProposalMsgType), track)
+	cl.DeliverWhere(typeIs(specqbft.PrepareMsgType), track)
+	cl.DeliverWhere(typeIs(specqbft.CommitMsgType), track)
+	return "repropose-prepared"
+}
